@@ -357,7 +357,8 @@ def install_formatter(S: Seams, fmt):
                 S.fmt_calls += 1
                 act = S.event("fmt_cmd", f"call{k}")
                 if act == "fmt_exit1":
-                    return result(1, b"", b"injected: formatter exit 1\n")
+                    # (the message of a real tool: brackets that rich would read as markup tags)
+                    return result(1, b"", b"injected: formatter exit 1 - cannot format values[/2] [bold]here\n")
                 if act == "fmt_garbage":
                     return result(0, b"def broken(:\n  <<< not python >>>\n")
                 if act == "fmt_empty":
